@@ -1228,7 +1228,7 @@ impl VM {
 
     fn mul(&self, left: &Value, right: &Value, pos: &Position) -> Result<Primitive, Error> {
         Ok(match (left, right) {
-            (P(Int(i)), P(Int(ii))) => Int(i * ii),
+            (P(Int(i)), P(Int(ii))) => Int(checked_int(i.checked_mul(*ii), "multiplication", pos)?),
             (P(Float(f)), P(Float(ff))) => Float(f * ff),
             _ => {
                 return Err(Error::new(
@@ -1241,7 +1241,12 @@ impl VM {
 
     fn div(&self, left: &Value, right: &Value, pos: &Position) -> Result<Primitive, Error> {
         Ok(match (left, right) {
-            (P(Int(i)), P(Int(ii))) => Int(i / ii),
+            (P(Int(i)), P(Int(ii))) => {
+                if *ii == 0 {
+                    return Err(Error::new("Division by zero".into(), pos.clone()));
+                }
+                Int(checked_int(i.checked_div(*ii), "division", pos)?)
+            }
             (P(Float(f)), P(Float(ff))) => Float(f / ff),
             _ => {
                 return Err(Error::new(
@@ -1254,7 +1259,7 @@ impl VM {
 
     fn sub(&self, left: &Value, right: &Value, pos: &Position) -> Result<Primitive, Error> {
         Ok(match (left, right) {
-            (P(Int(i)), Value::P(Int(ii))) => Int(i - ii),
+            (P(Int(i)), Value::P(Int(ii))) => Int(checked_int(i.checked_sub(*ii), "subtraction", pos)?),
             (P(Float(f)), Value::P(Float(ff))) => Float(f - ff),
             _ => {
                 return Err(Error::new(
@@ -1267,7 +1272,12 @@ impl VM {
 
     fn modulus(&self, left: &Value, right: &Value, pos: &Position) -> Result<Primitive, Error> {
         Ok(match (left, right) {
-            (P(Int(i)), Value::P(Int(ii))) => Int(i % ii),
+            (P(Int(i)), Value::P(Int(ii))) => {
+                if *ii == 0 {
+                    return Err(Error::new("Modulus by zero".into(), pos.clone()));
+                }
+                Int(checked_int(i.checked_rem(*ii), "modulus", pos)?)
+            }
             (P(Float(f)), Value::P(Float(ff))) => Float(f % ff),
             _ => {
                 return Err(Error::new(
@@ -1280,7 +1290,7 @@ impl VM {
 
     fn add(&self, left: &Value, right: &Value, pos: &Position) -> Result<Value, Error> {
         Ok(match (left, right) {
-            (P(Int(i)), Value::P(Int(ii))) => P(Int(i + ii)),
+            (P(Int(i)), Value::P(Int(ii))) => P(Int(checked_int(i.checked_add(*ii), "addition", pos)?)),
             (P(Float(f)), Value::P(Float(ff))) => P(Float(f + ff)),
             (P(Str(s)), Value::P(Str(ss))) => {
                 let mut ns = String::new();
@@ -1343,4 +1353,9 @@ impl VM {
         self.push(Rc::new(P(Str(val.as_ref().into()))), pos)?;
         Ok(())
     }
+}
+
+/// Turns the `None` of a checked integer operation into a build error.
+fn checked_int(result: Option<i64>, what: &str, pos: &Position) -> Result<i64, Error> {
+    result.ok_or_else(|| Error::new(format!("Integer overflow in {}", what).into(), pos.clone()))
 }
